@@ -161,7 +161,12 @@ def gen_c04(rng, tier):
         for v6 in (False, True):
             frames.append(w.udp_frame(v6, 0xffff, 3478, b'\x00\x01\x00\x00' + tid))
             frames.append(w.udp_frame(v6, 0xffff, 53, b'\xff\xff\x01\x00\x00\x01\x00\x00\x00\x00\x00\x00' + b'\x3f' + b'\xff' * 63 + b'\x00\x00\x01\x00\x01'))
-    cases.append(case(w, frames, ['carry-patterns']))
+    for dlt in (1, 0x100, 0x8000, 0xffff, 0x1234):
+        frames.append(w.f6(58, icmp6(128, 0, b'abcdefgh', *w.addrs(True), ckdelta=dlt)))
+        good = icmp(8, 0, b'abcdefgh')
+        frames.append(w.f4(1, icmp(8, 0, b'abcdefgh', ck=(struct.unpack('>H', good[2:4])[0] + dlt) & 0xffff)))
+        frames.append(w.f6(58, icmp6(135, 0, bytes(4) + w.my6 + b'\x01\x01' + w.cl_mac, *w.addrs(True), ckdelta=dlt)))
+    cases.append(case(w, frames, ['carry-patterns', 'wrong-request-checksums']))
     # requests that make a responder rewrite reply addresses or ports (checksums must follow)
     w2 = World(rng, selfmode=True, denymode=False)
     w2.self = [w2.my4, w2.my6, w2.my4b, w2.my6b]
@@ -225,7 +230,7 @@ def gen_c02(rng, tier):
     # destination-address sweep: every kind of answerable request, addressed to group / broadcast / foreign /
     # second-self addresses, on every accepted destination MAC class, with and without a self-IP list
     for selfmode in (True, False):
-        w = World(rng, selfmode=selfmode, denymode=False)
+        w = World(rng, selfmode=selfmode, denymode=True)
         frames = []
         macs = [w.mac, BCAST, bytes.fromhex('333300000001'), bytes([0x33, 0x33, 0xff]) + w.my6[13:16],
                 bytes([1, 0, 0x5e, w.my4[1] & 0x7f, w.my4[2], w.my4[3]])]
@@ -234,18 +239,19 @@ def gen_c02(rng, tier):
         d4 = [ip4('224.0.0.1'), ip4('255.255.255.255'), w.my4[:3] + b'\xff', w.other4, w.my4b, w.my4, bytes(4)]
         dns = struct.pack('>HHHHHH', 7, 0x0100, 1, 0, 0, 0) + b'\x01a\x00' + struct.pack('>HH', 1, 1)
         for dm in macs:
+          for s6, s4 in ((w.cl6, w.cl4), (w.bad6, w.bad4)):      # an ordinary peer, a peer on the deny list
             for d in d6:
                 for tgt in (w.my6, w.my6b):
-                    ns = icmp6(135, 0, bytes(4) + tgt + b'\x01\x01' + w.cl_mac, w.cl6, d)
-                    frames.append(eth(dm, w.cl_mac, 0x86dd, ipv6(w.cl6, d, 58, ns, hlim=255)))
-                frames.append(eth(dm, w.cl_mac, 0x86dd, ipv6(w.cl6, d, 58, icmp6(128, 0, b'abcdefgh', w.cl6, d))))
-                frames.append(eth(dm, w.cl_mac, 0x86dd, ipv6(w.cl6, d, 6, lib.tcp(4000, 80, 1, 0, 2, src=w.cl6, dst=d))))
-                frames.append(eth(dm, w.cl_mac, 0x86dd, ipv6(w.cl6, d, 17, lib.udp(4000, 53, dns, src=w.cl6, dst=d))))
+                    ns = icmp6(135, 0, bytes(4) + tgt + b'\x01\x01' + w.cl_mac, s6, d)
+                    frames.append(eth(dm, w.cl_mac, 0x86dd, ipv6(s6, d, 58, ns, hlim=255)))
+                frames.append(eth(dm, w.cl_mac, 0x86dd, ipv6(s6, d, 58, icmp6(128, 0, b'abcdefgh', s6, d))))
+                frames.append(eth(dm, w.cl_mac, 0x86dd, ipv6(s6, d, 6, lib.tcp(4000, 80, 1, 0, 2, src=s6, dst=d))))
+                frames.append(eth(dm, w.cl_mac, 0x86dd, ipv6(s6, d, 17, lib.udp(4000, 53, dns, src=s6, dst=d))))
             for d in d4:
-                frames.append(eth(dm, w.cl_mac, 0x0800, ipv4(w.cl4, d, 1, icmp(8, 0, b'abcdefgh'))))
-                frames.append(eth(dm, w.cl_mac, 0x0800, ipv4(w.cl4, d, 6, lib.tcp(4000, 80, 1, 0, 2, src=w.cl4, dst=d))))
-                frames.append(eth(dm, w.cl_mac, 0x0800, ipv4(w.cl4, d, 17, lib.udp(4000, 53, dns, src=w.cl4, dst=d))))
-                frames.append(eth(dm, w.cl_mac, 0x0806, arp(1, w.cl_mac, w.cl4, bytes(6), d)))
+                frames.append(eth(dm, w.cl_mac, 0x0800, ipv4(s4, d, 1, icmp(8, 0, b'abcdefgh'))))
+                frames.append(eth(dm, w.cl_mac, 0x0800, ipv4(s4, d, 6, lib.tcp(4000, 80, 1, 0, 2, src=s4, dst=d))))
+                frames.append(eth(dm, w.cl_mac, 0x0800, ipv4(s4, d, 17, lib.udp(4000, 53, dns, src=s4, dst=d))))
+                frames.append(eth(dm, w.cl_mac, 0x0806, arp(1, w.cl_mac, s4, bytes(6), d)))
         cases.append(case(w, frames, ['destination-sweep', 'self-list' if selfmode else 'no-self-list']))
     # self-IP lists of every shape (one address per family, a single family, three of a family) with the requests
     # that make a responder rewrite addresses or ports (STUN CHANGE-REQUEST flags incl. change-IP)
@@ -518,6 +524,16 @@ def gen_c01(rng, tier):
 
 def gen_c20(rng, tier):
     cases = []
+    for lg in ('console', 'logfmt'):
+        w = World(rng, selfmode=False, denymode=False, logger=lg, key=(0, 0))
+        frames = []
+        for i in range(4500 if tier == 'quick' else 70000):
+            sp = 1024 + (i % 60000)
+            w.cl4 = bytes([11 + (i >> 16), (i >> 8) & 255, i & 255, 9])
+            if i % 4 == 0:
+                frames.append(w.tcp_frame(False, sp, 80, 1, 0, 2))
+            frames.append(w.data_frame(False, sp, 80, 2, b'xx'))
+        cases.append(case(w, frames, ['many-flows', 'logger:' + lg]))
     n = 80 if tier == 'quick' else 1500
     for i in range(n):
         w = World(rng, selfmode=[True, False][i % 2], denymode=[True, False][(i // 2) % 2], logger=['console', 'logfmt'][(i // 4) % 2])
@@ -628,11 +644,12 @@ def gen_appcases(kinds, tcp=None, v6=None, per=400, mutate_ratio=6):
                     fault = 'mutated'
                 tags['%s:%s' % (kind, fault)] = tags.get('%s:%s' % (kind, fault), 0) + 1
                 shape = rng.below(10)
-                if shape == 0 and kind in ('stun', 'ssh', 'smb1', 'smb2', 'ghost', 'http') and tcp is not False:
+                if shape == 0 and kind in ('stun', 'ssh', 'smb1', 'smb2', 'ghost', 'http', 'rpc') and tcp is not False:
                     # sticky flow: a valid first request identifies the flow, later segments go straight to that responder
                     first = {'stun': lambda: gen.gen_stun(rng, None, magic=True) if False else gen.gen_stun_long(rng),
                              'ssh': lambda: gen.gen_ssh(rng), 'smb1': lambda: gen.gen_smb1(rng), 'smb2': lambda: gen.gen_smb2(rng),
-                             'ghost': lambda: gen.gen_ghost(rng), 'http': lambda: gen.gen_http(rng)}[kind]()
+                             'ghost': lambda: gen.gen_ghost(rng), 'http': lambda: gen.gen_http(rng),
+                             'rpc': lambda: gen.gen_rpc(rng, True)}[kind]()
                     _ck[0] += 1
                     ck = _ck[0]
                     v = rng.chance(1, 2)
@@ -672,7 +689,7 @@ def gen_appcases(kinds, tcp=None, v6=None, per=400, mutate_ratio=6):
                     # through the real layers 2-4: UDP frame or first TCP data segment, boundary ports included
                     v = rng.chance(1, 2)
                     sp = rng.choice([0, 0, 65535, 1, rng.u16()])
-                    dp = rng.choice([0, 65535, rng.u16(), rng.u16()])
+                    dp = rng.choice([0, 65535, rng.u16(), rng.u16(), 53, 5353, 80, 22, 111, 445, 3478, 137])
                     if t:
                         # a fresh 4-tuple for every TCP frame (the protocol id is sticky per flow)
                         _ck[0] += 1
@@ -732,7 +749,7 @@ def gen_c10(rng, tier):
         elif rng.chance(1, 4):
             # ... and through the real UDP layer, to well-known and boundary destination ports
             v = rng.chance(1, 2)
-            aops.append(('F', w.udp_frame(v, rng.u16(), rng.choice([53, 53, 3478, 111, 80, 22, 445, 0, 65535, rng.u16()]), s)))
+            aops.append(('F', w.udp_frame(v, rng.u16(), rng.choice([53, 53, 5353, 3478, 111, 80, 22, 445, 0, 65535, rng.u16()]), s)))
     c = acase(w, ops, ['matcher'])
     cases.append(c)
     cases.append(acase(w, aops, ['matcher-strings-through-repl']))
@@ -961,6 +978,7 @@ def judge_lines(c, mode='frame'):
     lines = []
     idx = []
     streams = {}
+    answered = {}
     sticky = {}
     for i, (o, b) in enumerate(zip(c['ops'], c['impl'])):
         if o[0] == 'P':
@@ -997,6 +1015,12 @@ def judge_lines(c, mode='frame'):
                 forced = ''
                 if o[1] == 'tcp':
                     streams[o[6]] = streams.get(o[6], b'') + o[7]
+                    # stateful parsers (HTTP, ONC-RPC/TCP): a later message is judged on its own only if the previous one
+                    # on the flow was complete, i.e. answered (otherwise it continues the unfinished message)
+                    prev_answered, answered[o[6]] = answered.get(o[6], True), parts[0] != '-'
+                    if meta.get('mode') == 'sticky' and sticky.get(o[6]) in (1, 5) and not prev_answered:
+                        idx.append(i) if False else None
+                        continue
                 if meta.get('mode') == 'sticky' and sticky.get(o[6]):
                     # later segment of a flow whose sticky protocol id is read from the implementation's table (P op):
                     # the responder of that protocol sees this segment alone
@@ -1331,11 +1355,13 @@ def explore_c11(prop, pd, tier, rng, corpus_cases):
     cases = []
     sport = [2000]
 
+    isns = [5, 5, 5, 0x7fffffff - 20, 0x80000000 - 3, 0xffffffff - 20, 0xfffffffd, 0x7fffffff - 8000, 0]
+
     def flow_case(s, cuts, tag, acks=False):
         sport[0] = (sport[0] + 1) % 60000 + 2000
         frames = []
         skip = set()
-        seq = 5
+        seq = isns[sport[0] % len(isns)]      # the stream crosses 2^31 or 2^32 for some flows
         pos = 0
         ck = w.cookie(w.cl4, w.my4, sport[0], 80)
         for cpos in list(cuts) + [len(s)]:
@@ -1507,7 +1533,7 @@ def explore_c19(prop, pd, tier, rng, corpus_cases):
                 ops.append(('F', w.f4(17, udp(rng.u16(), dport, pl))))       # checksum field 0: no checksum
                 variants.append(len(ops) - 1)
             # the same datagram to well-known and boundary destination ports, and to the second handled address
-            for dp in (53, 3478, 111, 80, 22, 445, 0, 1, 65534, 65535):
+            for dp in (53, 5353, 3478, 111, 80, 22, 445, 137, 0, 1, 65534, 65535):
                 ops.append(('F', w.udp_frame(v6, rng.u16(), dp, pl, second=rng.chance(1, 4))))
                 variants.append(len(ops) - 1)
         fgroups.append((kind, fault, pl, variants))
@@ -1598,7 +1624,12 @@ def explore_c08(prop, pd, tier, rng, corpus_cases):
             hist = frames[:pi]
             own = [h for h, r in zip(hist, repl[:pi]) if flow_key(h) == key and is_data(h) and outcome(r) == 'reply']
             others = [h for h in hist if flow_key(h) != key]
-            variants = [hist, own, own + others[:10], others[:5] + own, own + [gen.gen_frame(rng, World(rng))[1] for _ in range(5)]]
+            # an answered ARP request announcing the probe's source address at another MAC (neighbour caches), IPv4 probes only
+            spoof = []
+            if key[0] == 4:
+                spoof = [eth(BCAST, bytes.fromhex('02aabbccdd01'), 0x0806, arp(1, bytes.fromhex('02aabbccdd01'), key[1], bytes(6), key[2]))]
+            variants = [hist, own, own + others[:10], others[:5] + own, own + [gen.gen_frame(rng, World(rng))[1] for _ in range(5)],
+                        spoof + own + spoof]
             ids = []
             for vh in variants:
                 c = {'ops': [cfgop, ('X',)] + [('F', x) for x in vh] + [('F', f)], 'tags': ['noninterference']}
@@ -1630,16 +1661,31 @@ def explore_c08(prop, pd, tier, rng, corpus_cases):
     h1, h2 = b'GET / HT', b'TP/1.1\r\nHost: a\r\n\r\n'
     seg = lambda src, sp, seq, ck, pl: eth(fcfg['mac'], cl, 0x0800, ipv4(src, my, 6, lib.tcp(sp, 80, seq, (ck + 1) & 0xffffffff, 0x18, pl)))
     v1, v2 = seg(vsrc, vsp, 1000, vck, h1), seg(vsrc, vsp, 1000 + len(h1), vck, h2)
+    # second victim: its first segment completes no signature yet (the flow is still unidentified during the flood)
+    wsp = 40001
+    wck = cookie(fkey, vsrc, my, wsp, 80)
+    w1, w2 = seg(vsrc, wsp, 500, wck, b'Gh0'), seg(vsrc, wsp, 503, wck, b'st' + bytes(20))
     flood, clash = [], False
+    low = {}    # flows whose cookie agrees with the first victim's in the low 8 / 12 / 16 bits (hashed or truncated table slots)
     for i in range(nflood):
         src, sp = bytes([11 + (i >> 16), (i >> 8) & 255, i & 255, 7]), 1024 + (i % 60000)
         ck = cookie(fkey, src, my, sp, 80)
-        clash = clash or ck == vck
+        clash = clash or ck == vck or ck == wck
+        for bits in (8, 12, 16):
+            if ck != vck and (ck ^ vck) & ((1 << bits) - 1) == 0 and bits not in low:
+                low[bits] = seg(src, sp, 1, ck, b'xx')
         flood.append(seg(src, sp, 1, ck, b'xx'))
-    fl = [{'ops': [('C', fcfg), ('X',)] + [('F', x) for x in [v1] + flood + [v2]], 'tags': ['flood']},
-          {'ops': [('C', fcfg), ('X',)] + [('F', x) for x in [v1, v2]], 'tags': ['flood-own-only']}]
+    fl = [{'ops': [('C', fcfg), ('X',)] + [('F', x) for x in [v1, w1] + flood + [w2, v2]], 'tags': ['flood']},
+          {'ops': [('C', fcfg), ('X',)] + [('F', x) for x in [v1, w1, w2, v2]], 'tags': ['flood-own-only']},
+          {'ops': [('C', fcfg), ('X',)] + [('F', x) for x in [v1] + [low[b] for b in sorted(low)] + [v2]], 'tags': ['low-bits-twins']},
+          {'ops': [('C', fcfg), ('X',)] + [('F', x) for x in [v1, v2]], 'tags': ['low-bits-own-only']}]
     run_cases(fl, want_model=False)
-    fo = [proj_probe(c['impl'][-1]['r']) if c['impl'] else ('dead',) for c in fl]
+    fo = [(proj_probe(c['impl'][-1]['r']), proj_probe(c['impl'][-2]['r'])) if len(c['impl']) > 3 else ('dead',) for c in fl]
+    if fo[2][0] != fo[3][0]:
+        violations.append({'clause': 'reply to the second half of a request differs after flows whose cookies share the low %s bits with this flow\'s cookie' % sorted(low),
+                           'ops': [op_to_json(x) for x in fl[2]['ops']], 'own_only_ops': [op_to_json(x) for x in fl[3]['ops']],
+                           'full_history_reply': str(fo[2][0])[:300], 'own_only_reply': str(fo[3][0])[:300], 'tags': ['low-bits-twins'],
+                           'cookie_collision': False})
     if fo[0] != fo[1]:
         violations.append({'clause': 'reply to the second half of a request differs after %d other validated flows (full history vs own flow only)' % nflood,
                            'ops': [op_to_json(x) for x in fl[1]['ops']],
@@ -1666,7 +1712,7 @@ def explore_c08(prop, pd, tier, rng, corpus_cases):
         elif len(samples) < 3 and outs[0][0] == 'reply':
             samples.append({'probe': f.hex()[:200], 'history_lengths': [len(cases[i]['ops']) - 3 for i in ids], 'reply': str(outs[0])[:160]})
     compared, exact = _corr(cases, lambda o, b: proj_headers(bytes.fromhex(b['r'])) if outcome(b['r']) == 'reply' else outcome(b['r']), disagreements)
-    return _result(len(groups) * 5, nontrivial, samples, compared, exact, disagreements, violations, pd['rule'],
+    return _result(len(groups) * 6, nontrivial, samples, compared, exact, disagreements, violations, pd['rule'],
                    {'probes': len(groups), 'histories': len(cases)})
 
 
@@ -1754,6 +1800,8 @@ def explore_c12(prop, pd, tier, rng, corpus_cases):
     frames = []
     for _ in range(n):
         frames.append(('arp-reply', eth(rng.choice([w.mac, BCAST]), w.cl_mac, 0x0806, arp(2, w.cl_mac, w.cl4, w.mac, w.my4, pad=rng.bytes(rng.below(10))))))
+        frames.append(('arp-reply', eth(rng.choice([w.mac, BCAST]), w.cl_mac, 0x0806,
+                                        arp(2, w.cl_mac, rng.choice([w.my4, w.my4b, w.cl4]), rng.choice([w.mac, bytes(6), BCAST]), rng.choice([w.my4, w.my4b, w.cl4])))))
         frames.append(('icmp-echo-reply', w.f4(1, icmp(0, 0, rng.bytes(4 + rng.below(40))))))
         frames.append(('icmp6-echo-reply', w.f6(58, icmp6(129, 0, rng.bytes(4 + rng.below(40)), s6, d6))))
         frames.append(('icmp6-na', w.f6(58, icmp6(136, 0, bytes([0x60, 0, 0, 0]) + rng.choice([w.my6, w.cl6]) + bytes([2, 1]) + w.cl_mac, s6, d6))))
